@@ -637,14 +637,6 @@ func (l *ledgers) observe(ni *nodeInc) {
 			}
 		}
 		o.commit = c
-		if r.state == Leader {
-			if t, ok := o.terms[c]; ok && run.sampleC06(c) {
-				l.checkDurableOnMajority(ni, c, t, "commit index of leader")
-				if run.stop {
-					return
-				}
-			}
-		}
 	}
 }
 
@@ -746,6 +738,20 @@ func (l *ledgers) onSnapshotPublished(ni *nodeInc) {
 		run.stop = true
 		return
 	}
+	if meta.config.Index > idx {
+		// A follower may label with a configuration entry just beyond the snapshot
+		// index: it adopted the next configuration, which its leader appends only once
+		// this one is committed. That label is not older than the membership in force
+		// and the entry is in the node's log, so its view after a restart is the same.
+		// Accept it iff it is exactly a committed configuration entry the node holds.
+		lc := l.cfgAt[meta.config.Index]
+		if lc != nil && sameMembership(lc, &meta.config) {
+			if t, ok := ni.obs.terms[meta.config.Index]; ok && t == meta.config.Term {
+				run.reach("label_config_ahead_of_index")
+				return
+			}
+		}
+	}
 	if !sameMembership(exp, &meta.config) {
 		kind := "label_config_other"
 		if meta.config.Index < exp.Index {
@@ -791,6 +797,28 @@ func (l *ledgers) configInLog(ni *nodeInc) *Config {
 	return c
 }
 
+// configFromLog decodes the newest configuration entry of r's log (falling
+// back to the label of its snapshot): the configuration a leader has to use,
+// read from the log and not from the leader's cached view.
+func configFromLog(r *Raft) *Config {
+	e := &entry{}
+	for i := r.lastLogIndex; i > r.log.PrevIndex(); i-- {
+		if err := r.storage.getEntry(i, e); err != nil {
+			break
+		}
+		if e.typ == entryConfig {
+			c := &Config{}
+			if c.decode(e) == nil {
+				return c
+			}
+		}
+	}
+	if meta, err := r.snaps.meta(); err == nil && meta.config.Index > 0 {
+		return &meta.config
+	}
+	return nil
+}
+
 // durableHolds: would node n, killed right now and restarted, hold (i,t)?
 func (run *simRun) durableHolds(n *simNode, i, t uint64) (bool, string) {
 	src := n.dir
@@ -828,10 +856,11 @@ func (run *simRun) durableHolds(n *simNode, i, t uint64) (bool, string) {
 
 func (l *ledgers) checkDurableOnMajority(ldr *nodeInc, i, t uint64, what string) {
 	run := l.run
-	conf := l.configInLog(ldr)
+	conf := configFromLog(ldr.r)
 	if conf == nil {
-		c := ldr.r.configs.Latest
-		conf = &c
+		run.infra = "oracle: leader has no configuration"
+		run.stop = true
+		return
 	}
 	voters, holders := 0, 0
 	detail := ""
@@ -957,6 +986,28 @@ func (l *ledgers) onReturn(op *opRec) {
 	}
 }
 
+type memberRec struct {
+	inc  *nodeInc
+	desc string
+	conf Config
+}
+
+func (l *ledgers) onMemberInvoke(ni *nodeInc, conf Config, desc string) *memberRec {
+	l.run.reach("member_request")
+	return &memberRec{inc: ni, desc: desc, conf: conf}
+}
+
+func (l *ledgers) onMemberReturn(rec *memberRec, t Task, done bool) {
+	if !done {
+		return
+	}
+	if t.Err() == nil {
+		l.run.reach("member_accepted")
+	} else {
+		l.run.reach("member_rejected")
+	}
+}
+
 type transferRec struct{}
 
 func (l *ledgers) onTransferInvoke(ni *nodeInc, target uint64, timeout time.Duration) *transferRec {
@@ -995,6 +1046,28 @@ func (run *simRun) installTracer() {
 
 func (run *simRun) probe(name string, args []interface{}) {
 	switch name {
+	case "Raft.setCommitIndex:enter":
+		// the instant a leader decides that index is committed: its own copy has been
+		// flushed, the next configuration (if this commits one) is not yet appended
+		r := args[0].(*Raft)
+		idx := args[1].(uint64)
+		if ni := run.raftOf[r]; ni != nil && !ni.dead && r.state == Leader && run.sampleC06(idx) && idx > r.snaps.index {
+			if t, err := r.storage.getEntryTerm(idx); err == nil {
+				run.led.checkDurableOnMajority(ni, idx, t, "commit index of leader")
+			}
+		}
+	case "storage.removeGTE:exit":
+		// a leader made this node drop a conflicting suffix: what it had acknowledged
+		// beyond that point is legitimately gone
+		st := args[0].(*storage)
+		for _, n := range run.nodes {
+			if ni := n.inc; ni != nil && !ni.dead && ni.r != nil && ni.r.storage == st {
+				idx := args[1].(uint64)
+				if ni.acked >= idx {
+					ni.acked, ni.ackedTerm = idx-1, args[2].(uint64)
+				}
+			}
+		}
 	case "Raft.onAppendEntriesRequest:enter":
 		if ni := run.raftOf[args[0].(*Raft)]; ni != nil && !ni.dead {
 			req := args[1].(*appendReq)
@@ -1141,10 +1214,65 @@ func (run *simRun) settleCheck() {
 		return
 	}
 	if run.sim.Now-run.healedAt > run.settleBudget() {
+		if why == "no_leader" && run.electionBlockedByUncommittedConfig() {
+			why = "no_leader:uncommitted_config_disables_up_to_date_nodes"
+		}
 		run.violate("C17", "no_convergence", "settle:"+why, "cluster did not converge within %v of simulated time after the last fault: %s\n%s%s", time.Duration(run.settleBudget()), why, run.describeCluster(), run.sim.Describe())
 		return
 	}
 	run.sim.After(int64(run.cfg.HB), "settle-check", run.settleCheck)
+}
+
+// electionBlockedByUncommittedConfig recognises one specific stuck state: some
+// node is a non-voter (or no member) in its own latest configuration, that
+// configuration entry is not committed, and its log is more up to date than
+// the log of every node that is still allowed to campaign. The nodes that may
+// campaign can then never collect its vote, and it never campaigns itself.
+func (run *simRun) electionBlockedByUncommittedConfig() bool {
+	l := &run.led
+	moreUpToDate := func(a, b *Raft) bool {
+		return a.lastLogTerm > b.lastLogTerm || (a.lastLogTerm == b.lastLogTerm && a.lastLogIndex > b.lastLogIndex)
+	}
+	var campaigners, blocked []*nodeInc
+	for _, ni := range run.liveIncs() {
+		r := ni.r
+		if r.configs.Latest.isVoter(r.nid) {
+			campaigners = append(campaigners, ni)
+			continue
+		}
+		if _, committed := l.committed[r.configs.Latest.Index]; !committed && r.configs.Latest.Index > 0 {
+			blocked = append(blocked, ni)
+		}
+	}
+	if len(blocked) == 0 || len(campaigners) == 0 {
+		return false
+	}
+	for _, c := range campaigners {
+		// c needs a quorum of its own configuration; it is blocked if the votes it
+		// could still get (itself and voters of its config that are not more up to date) fall short
+		conf := c.r.configs.Latest
+		can := 0
+		for id, n := range conf.Nodes {
+			if !n.Voter {
+				continue
+			}
+			if id == c.node.id {
+				can++
+				continue
+			}
+			o := run.node(id)
+			if o == nil || !o.inc.live() {
+				continue
+			}
+			if !moreUpToDate(o.inc.r, c.r) {
+				can++
+			}
+		}
+		if can >= conf.quorum() {
+			return false
+		}
+	}
+	return true
 }
 
 func (run *simRun) describeCluster() string {
